@@ -55,7 +55,7 @@ ASSUMPTIONS.update({
     "worlda": ["crypto/x509 chain verification and math/big trusted", "RSA keys come from a committed pool (1024, 1536, 2048, 3072, 4096 bits)"],
 })
 MUST_PROBE = {
-    "C11": ["linearizable", "transport_disciplined"],
+    "C11": ["linearizable", "transport_disciplined", "runs_with_lock_contention", "purge_during_concurrent_run"],
     "C20": ["released_by_matching_request", "stayed_blocked_without_matching_request", "unsupported_code_immediate", "waiter_parked_before_cleanup"],
     "C06": ["accepted_valid_null", "accepted_valid_nonull", "rejected_by_chain_or_clock", "rejected_by_signature"],
     "C07": ["listing_agrees", "purged_sign_refused", "hardcert_accepted"],
